@@ -322,3 +322,17 @@ def run(P, R, tier):
 
 EXPLANATION += ' Also: (ACC.sum) accumulators are summed over classes / sessions; (POL.acc-placement) every factor of A1 / A2 multiplies; (OPT); (IDX.class-select); (COVER.reduce_iadd / COVER.pairs) per-class accumulators are folded whole; (DTYPE.raw).'
 EXPLANATION += ' (ACC.sum / IDX.class-eq as in C07); (POL.mult-along-axis) the helper multiplies; (COVER.tree) reduce_iadd written as a tree covers every element.'
+
+
+_run_c09_r6 = run
+
+
+def run(P, R, tier):
+    _run_c09_r6(P, R, tier)
+    from ..engines import carry as _carry
+    for k_ in ("factor_analysis:ISVMachine.fit", "factor_analysis:JFAMachine.fit"):
+        _carry.check_stale_derived(P, R, k_)
+    _carry.check_blocked_loops(P, R, ["factor_analysis"], scope="factor_analysis:FactorAnalysisBase\\.(compute_accumulators_|update_|_compute_|compute_latent)")
+
+
+EXPLANATION += " (STALE.derived) a local precomputed from U / V / D inside a training loop is recomputed after every update of them; (BLOCK.carried) per-class results are computed from that class's values."
